@@ -684,11 +684,11 @@ pub fn generate(thorough: bool, seed: u64, out: &mut dyn Write) {
             }
         }
     }
-    let n = if thorough { 6000 } else { 110 };
+    let n = if thorough { 40000 } else { 300 };
     for i in 0..n {
         let o = GenOpts {
             max_meshes: if i % 7 == 0 { 6 } else { 3 },
-            max_vertices: if thorough && i % 50 == 0 { 3000 } else { 300 },
+            max_vertices: if thorough && i % 20 == 0 { 3000 } else { 300 },
             combos: COMBOS,
             v5_only: false,
             canonical: false,
